@@ -144,7 +144,7 @@ func runC01(c *Ctx) {
 		items = append(items, fmt.Sprintf("mk_hc %d {| r_storage := %s; r_sigmode := SigVerify; r_fetch := Active; r_strict := true |} [%s] [%s]", k, st, strings.Join(steps, "; "), strings.Join(obs, "; ")))
 	}
 	c.WriteCoqSharded("cases_C01", "From Verif Require Import Base Repo RunRepo.\nOpen Scope N_scope.\n", "hcase", items, "repo_mismatches", 12)
-	c.Rep.Cases = len(cases)
+	c.Rep.Cases = len(cases) + c01UnnumberedStage(c)
 	// a list in force keeps rejecting its serials WHILE it is being refreshed (observers concurrent with refreshes, in a
 	// child process; shared with C08) and across a key rollover
 	c08Concurrent(c)
